@@ -16,7 +16,7 @@ RULE = ("Programs: small feature trees (scenarios, outlines, rules, backgrounds 
         "i-th announced step and the step's final status; first and last recorder see identical streams; (2) JSON output parses, "
         "its features/elements/steps/tables/doc-strings/statuses are those of the model, each status on its own element, and "
         "JsonParser reads it back to the same structure; (3) plain / progress2 / progress3 show each processed step once with "
-        "its final status; each formatter's output is independent of the line-up; formatters built from real `-f FORMAT "
+        "its final status, pretty (colour off) shows every shown scenario followed by exactly its own steps; each formatter's output is independent of the line-up; formatters built from real `-f FORMAT "
         "[-o OUTFILE]` arguments (every ordered choice of 1-3 formats x every number of outfiles) write their own report "
         "into their own file / stdout. Non-trivial = distinct case with a non-pass "
         "outcome, a hidden scenario or > 1 formatter.")
@@ -287,6 +287,38 @@ def check_plain(text, fname, prog, ref, obs):
     return v
 
 
+def check_pretty(text, fname, prog, ref, obs, show_skipped, p2o):
+    """pretty (colour off): every shown scenario's header is followed by exactly its own steps, in order; no step
+    line stands under a Feature / Rule / Background header"""
+    v = []
+    text = ANSI.sub("", text)
+    blocks = []
+    for line in text.splitlines():
+        m = re.match(r"^\s*(Feature|Rule|Background|Scenario Outline|Scenario): ?(.*?)\s*(?:# \S+)?$", line)
+        if m and not line.lstrip().startswith(("Given ", "When ", "Then ", "And ", "But ", "* ")):
+            blocks.append([m.group(1), m.group(2).strip(), []])
+            continue
+        m = re.match(r"^\s+(?:Given|When|Then|And|But|\*) (.*?)\s+# (\S+)\s*$", line)
+        if m and blocks:
+            blocks[-1][2].append(m.group(1))
+    got = [(b[1], b[2]) for b in blocks if b[0].startswith("Scenario")]
+    stray = [(b[0], b[1], b[2]) for b in blocks if not b[0].startswith("Scenario") and b[2]]
+    want = []
+    for path in shown_scenarios(ref, show_skipped):
+        want.append((p2o[path].name.strip(), list(ref.info[path][1]["names"])))
+    got = [(n.strip(), st) for n, st in got]
+    if stray:
+        v.append(({"subcheck": "text", "clause": "steps-under-non-scenario-header", "formatter": fname, "dry": str(ref.dry),
+                   "header": stray[0][0]},
+                  "pretty prints steps %r under the %s header %r" % (stray[0][2], stray[0][0], stray[0][1])))
+    if got != want:
+        i = next((k for k, (a, b) in enumerate(zip(got, want)) if a != b), min(len(got), len(want)))
+        v.append(({"subcheck": "text", "clause": "scenario-steps", "formatter": fname, "dry": str(ref.dry),
+                   "kind": "missing" if len(got) < len(want) else "extra" if len(got) > len(want) else "differs"},
+                  "pretty shows %r, the model has %r (scenario block #%d)" % (got[i:i + 1], want[i:i + 1], i)))
+    return v
+
+
 def check_dots(text, fname, prog, ref, obs):
     v = []
     text = ANSI.sub("", text)
@@ -363,6 +395,8 @@ def run_case(case):
             v += check_plain(text, name, prog, ref, obs)
         elif name in ("progress2", "progress3"):
             v += check_dots(text, name, prog, ref, obs)
+        elif name == "pretty" and "--no-color" in cfg.get("extra", ()):
+            v += check_pretty(text, name, prog, ref, obs, show_skipped, p2o)
         # independence of the line-up: same output as when this formatter runs alone (durations masked)
         if len(lineup) > 1 and name in ("plain", "json.pretty", "progress3"):
             key = (feat, cfgname, deco, name)
@@ -522,7 +556,7 @@ def cases(tier):
     progs = list(programs(tier))
     all_lineups = list(lineups(tier, core=True))
     # every program x the switch combinations x the single "all readers" line-up
-    readers = ("json", "plain", "progress2", "progress3", "json.pretty")
+    readers = ("json", "plain", "progress2", "progress3", "json.pretty", "pretty")
     for pi, pr in enumerate(progs):
         for cfgname in SWITCHES:
             yield (pr, cfgname, readers, ("table", "doc", None)[pi % 3])
